@@ -27,6 +27,13 @@ type Style struct {
 	TrailingNL bool // file ends with a newline
 	CRLF       bool // "\r\n" line ends
 	Tabs       bool // tab instead of single spaces between tokens
+	// ZeroPad > 0 writes every integer literal (constant values, list / map
+	// elements, defaults, explicit enum values, field ids) with that many
+	// leading zeros -- Thrift integers are decimal, 010 is ten -- and doubles
+	// as a zero-padded mantissa with a (two-digit, zero-padded) exponent.
+	// Not drawn by RandomStyle and not shown by String() when 0, so existing
+	// users of the package see no change; C10 sets it itself.
+	ZeroPad int
 }
 
 // DefaultStyle is the plain rendering.
@@ -50,7 +57,24 @@ func RandomStyle(rng *rand.Rand) Style {
 
 // String names the style compactly (used as the distinct-case key).
 func (s Style) String() string {
-	return fmt.Sprintf("f%q e%q m%q o%q s%q i%q q%c g%d in%v b%d br%v a%v t%v cr%v tb%v", s.FieldSep, s.EnumSep, s.FuncSep, s.OpSep, s.StmtEnd, s.Indent, s.Quote, s.Gap, s.Inline, s.Blank, s.BraceNL, s.AngleWS, s.TrailingNL, s.CRLF, s.Tabs)
+	out := fmt.Sprintf("f%q e%q m%q o%q s%q i%q q%c g%d in%v b%d br%v a%v t%v cr%v tb%v", s.FieldSep, s.EnumSep, s.FuncSep, s.OpSep, s.StmtEnd, s.Indent, s.Quote, s.Gap, s.Inline, s.Blank, s.BraceNL, s.AngleWS, s.TrailingNL, s.CRLF, s.Tabs)
+	if s.ZeroPad > 0 {
+		out += fmt.Sprintf(" z%d", s.ZeroPad)
+	}
+	return out
+}
+
+// integer renders an integer literal under the ZeroPad knob.
+func (r *renderer) integer(v int64) string {
+	s := strconv.FormatInt(v, 10)
+	if r.s.ZeroPad <= 0 {
+		return s
+	}
+	pad := strings.Repeat("0", r.s.ZeroPad)
+	if s[0] == '-' {
+		return "-" + pad + s[1:]
+	}
+	return pad + s
 }
 
 type renderer struct {
@@ -156,10 +180,25 @@ func (r *renderer) value(v interface{}) string {
 		}
 		return "false"
 	case int64:
-		return strconv.FormatInt(x, 10)
+		return r.integer(x)
 	case int:
-		return strconv.Itoa(x)
+		return r.integer(int64(x))
 	case float64:
+		if r.s.ZeroPad > 0 { // 0012.5e+03: zero-padded mantissa, exponent form (Go pads the exponent to two digits)
+			s := strconv.FormatFloat(x, 'e', -1, 64)
+			mant, exp := s, ""
+			if i := strings.IndexByte(s, 'e'); i >= 0 {
+				mant, exp = s[:i], s[i:]
+			}
+			if !strings.Contains(mant, ".") {
+				mant += ".0"
+			}
+			pad := strings.Repeat("0", r.s.ZeroPad)
+			if mant[0] == '-' {
+				return "-" + pad + mant[1:] + exp
+			}
+			return pad + mant + exp
+		}
 		s := strconv.FormatFloat(x, 'f', -1, 64)
 		if !strings.Contains(s, ".") {
 			s += ".0"
@@ -187,7 +226,7 @@ func (r *renderer) value(v interface{}) string {
 
 func (r *renderer) field(indent string, f *Field, sep string) {
 	r.doc(indent, f.Comment)
-	r.b.WriteString(indent + strconv.Itoa(f.ID) + ":" + r.in())
+	r.b.WriteString(indent + r.integer(int64(f.ID)) + ":" + r.in())
 	if f.Req != "" {
 		r.b.WriteString(f.Req + r.in())
 	}
@@ -246,7 +285,7 @@ func RenderFile(f *File, s Style) string {
 				r.doc(ind, v.Comment)
 				r.b.WriteString(ind + v.Name)
 				if v.Explicit {
-					r.b.WriteString(r.sp() + "=" + r.sp() + strconv.Itoa(v.Value))
+					r.b.WriteString(r.sp() + "=" + r.sp() + r.integer(int64(v.Value)))
 				}
 				r.b.WriteString(r.ann(v.Ann) + s.EnumSep + "\n")
 			}
